@@ -24,8 +24,10 @@ def handleLine (line : String) : String :=
     | "topo" => TopoDrv.handle rest
     | "parse" => ParseDrv.handleParse rest
     | "roundtrip" => ParseDrv.handleRoundtrip rest
+    | "fsweep" => ParseDrv.handleFsweep rest
     | "loop" => LoopDrv.handle rest
     | "run" => RunDrv.handle rest
+    | "runt" => RunDrv.handleTimed rest
     | "bufseq" => BufDrv.handle rest
     | "growth" => ExecDrv.handleGrowth rest
     | "exec" => ExecDrv.handleExec rest
